@@ -133,7 +133,6 @@ def run(ctx, spec):
     import aotools
     from aotools.functions import karhunenLoeve as KL
     rng = ctx.rng
-    ctx.check(aotools.make_kl is KL.make_kl, "export:make_kl", "aotools.make_kl is not karhunenLoeve.make_kl", None)
     for p in range(spec["polar"]):
         ri = float(rng.choice([0.05, 0.15, 0.25, 0.4, 0.6, 0.8, rng.uniform(0.05, 0.8)]))
         nr = int(rng.integers(8, spec["max_nr"] + 1))
